@@ -16,12 +16,12 @@ CHECKS = {
  "C02": (E1, "bounded exhaustive enumeration with dyadic alphabets so that every keyframe-hit, delay, pass-end and after-end instant is exact in f32",
          "All keyframe lists up to the bound with per-property distinct positions x 13 timing configurations x every exact-hit time in every cycle; integer values compared exactly, floats within 4 ulp, after-end values bit-constant.",
          "dyadic alphabets only for the exact clauses; Easing::calc(0)=0, calc(1)=1 (C13)", "DESIGN.md 3/C02"),
- "C03": (E1, "exhaustive sweep of the f32 time axis (+-64 ulp of every phase boundary for 288 configurations; every finite f32 bit pattern for 64 configurations in thorough) against an exact-arithmetic reference time map",
+ "C03": (E1, "exhaustive sweep of the f32 time axis (+-1024 ulp quick / 4096 thorough of every phase boundary, of the reported duration and of the configured total for 600 configurations; every finite f32 bit pattern for 64 configurations in thorough) against an exact-arithmetic reference time map",
          "The 1-D time axis is enumerated completely (thorough) so boundary and rounding behaviour of the time map is decided for every representable time of the chosen configurations; exact comparison where f32 arithmetic is exact, +-3 ulp jitter window elsewhere.",
          "configurations outside the grid; where 3 ulp(t) >= cycle/4 only boundedness/terminal consistency is asserted (counted in evidence)", "DESIGN.md 3/C03"),
- "C04": (E2, "explicit-state exploration of all operation histories (advance/set_state) up to depth 6 quick / 7 thorough over 144 (288) animator configurations on the real StateAnimator, plus a deviation-bounded pass to horizon 12/14; relational no-jump oracle (exact)",
+ "C04": (E2, "explicit-state exploration of all operation histories (advance/set_state) up to depth 6 quick / 7 thorough over all pairs of pool shapes on the real StateAnimator, plus a deviation-bounded pass to horizon 12/14; relational no-jump oracle (exact)",
          "current_values must be bit-identical before and after every set_state in every history; same-state set_state must leave time, pause record and is_ended unchanged (read through the verif-hooks snapshot). Exhaustive small-scope exploration is the right level: the defect class is stale state that needs a particular 3-4 step history.",
-         "pool of 12 timeline shapes; dyadic step alphabet; depth bound", "DESIGN.md 3/C04"),
+         "pool of 19 timeline shapes; dyadic step alphabet in the main passes; depth bound", "DESIGN.md 3/C04"),
  "C05": (E2, "explicit-state exploration of all histories up to depth 5 quick / 6 thorough with a reference animator (RefAnimator) stepped alongside and compared after every operation, internal time and pause record through the verif-hooks snapshot",
          "State, values, time-in-state and the live pause record must equal the reference after every operation of every history; entry values of a blend are observed, so each comparison is local.",
          "same pool/alphabet as C04; tolerance policy of DESIGN 2.3 for values", "DESIGN.md 3/C05"),
@@ -30,7 +30,7 @@ CHECKS = {
          "exactly representable steps (the statement's exact clause); non-representable steps are not compared bit-for-bit", "DESIGN.md 3/C06"),
  "C07": (E2, "explicit-state exploration of all histories up to depth 5 quick / 6 thorough with an advance alphabet that lands exactly on, 2^-9 before and after every total duration of the pool; reference end status, stickiness, frozen and terminal values",
          "is_ended must equal the reference (no timeline or time >= max component total, never with an infinite component) after every operation; once ended it stays ended and values stay bit-constant and equal the reference terminal values.",
-         "dyadic totals; pool of 12 shapes", "DESIGN.md 3/C07"),
+         "dyadic totals in the main passes; pool of 19 shapes", "DESIGN.md 3/C07"),
  "C08": (E1, "bounded exhaustive enumeration with sentinel targets (bit-identity oracle)",
          "C01 space x three prior target contents (NaN-payload sentinels) plus all merged pairs: every field without a keyframe, the never-keyframed #[animate] field, the non-#[animate] field and the whole struct for empty timelines must be bit-identical after update.",
          "struct shapes other than P: see C17 family; animator histories: E2 explorer", "DESIGN.md 3/C08"),
@@ -43,7 +43,7 @@ CHECKS = {
  "C11": (E1, "exhaustive enumeration of ALL permutations of insertion order (<=6 quick, <=8 thorough keyframes; a 1/8 grid and a sub-percent grid) against the ascending-order build",
          "Every subset of distinct positions from a 9-point grid x content patterns x every permutation; values and metadata must be bit-identical to the ascending build.",
          "relational; the ascending build is bound to the reference by C01", "DESIGN.md 3/C11"),
- "C12": (E1, "exhaustive enumeration of all lists of 0..4 (quick) / 0..5 (thorough) components from a pool of 10 plus a metadata family over 135 stub components and nested merged timelines, relational overlay oracle + exact metadata arithmetic",
+ "C12": (E1, "exhaustive enumeration of all lists of 0..4 (quick) / 0..5 (thorough) components from a pool of 11 plus a metadata family over 600 stub components, nested merged timelines and wide lists, relational overlay oracle + exact metadata arithmetic",
          "merged.update == components applied in order (bit-equal), start_with reaches all components, disjoint sets commute, delay=min, duration=max, repeat=largest, cycle only if all agree, wrap-single identity.",
          "pool of 10 component shapes", "DESIGN.md 3/C12"),
  "C13": (E1, "exhaustive sweep of the easing input axis (every 1024th f32 in [0,1] + endpoint neighbourhoods quick; all 1 065 353 217 f32 values thorough) x 29 easings",
@@ -64,12 +64,35 @@ CHECKS = {
  "C18": (E4, "exhaustive enumeration of frame-delta schedules (all 4^5 quick / 4^6 thorough schedules over {0, 2^-9, 1/4, 8 s}) x all per-entity control histories (5^5 / 5^6 over nothing/disable/enable/reset/set_timeline) x 12 timings on a real headless bevy App with a hand-driven Time resource, plus a deviation-bounded pass over a longer horizon; per-frame rules R1-R9",
          "Every schedule/history is run on the real plugin; after each frame position, state, component and events of every entity are checked against the nine rules (time conservation, forward-only state, Waiting only before the delay, Ended exactly when over and never for infinite timelines, terminal values when Ended, timeline value while Playing, disabled = inert, one event per state change).",
          "frame-start-position reading of the statement; the real timeline is the evaluator (C01-C03 decide it)", "DESIGN.md 3/C18"),
- "C19": (E4, "exhaustive enumeration of key-assignment histories (5^5 / 5^6) x frame-delta schedules (3^5 / 3^6) x 5 chain maps x 1|2 animated component types on a real headless bevy App, plus a deviation-bounded pass; per-frame rules S1-S6 with a reference selector",
+ "C19": (E4, "exhaustive enumeration of key-assignment histories (5^5 / 5^6) x frame-delta schedules (3^5 / 3^6) x 6 chain maps x 1|2 animated component types on a real headless bevy App, plus a deviation-bounded pass; per-frame rules S1-S6 with a reference selector",
          "For every entity-frame: the key may change only by assignment or by a justified chain move (the governed animator ended on that very key), a justified move must happen in the next frame, a key change is acted on without a jump and restarts the animation blended from the current values, keys without timeline freeze the component, re-assigning the current key restarts nothing.",
-         "the system order of this build (chain, select, animate); animator internals are C18's", "DESIGN.md 3/C19"),
+         "the order of the two mutually unordered systems is probed per process and the reference is parametrised by it; animator internals are C18's", "DESIGN.md 3/C19"),
  "C20": (E1, "exhaustive enumeration of extreme configurations x boundary times x operations under catch_unwind, in a debug and a release build whose result digests must agree",
          "All u32-boundary repeat counts, extreme cycles/delays, times +-0..2 ulp of every phase boundary, huge advances; no panic, finite, within keyframe range, debug==release.",
          "validity bound: total duration <= f32::MAX", "DESIGN.md 3/C20"),
+}
+
+
+# As-built additions (seed rounds 2-7, DESIGN.md sections 8 and 11); appended to the level text.
+ADDENDA = {
+ "C01": "Companion families beyond the small scope, all with exact positions/times/values: the f64 property, non-dyadic positions and cycles (jitter windows skipped and counted), WIDE timelines of 2^j+1 keyframes (j up to 16 quick / 17 thorough), STEPPED timelines (tied keyframes inserted out of order), TALL timelines (every subset of a 9-point grid), MICRO segments (keyframes closer than f32::EPSILON), negative zero and negative times; a panic in update is a violation.",
+ "C02": "Also: every timeline wrapped in MergedTimeline::from (bit-equal), a non-dyadic end companion (terminal value at exactly the reported duration), and the WIDE/TALL families evaluated at exactly every keyframe position.",
+ "C03": "As built: 504 configurations (negative delays, cycle 1e-8 .. 1e3) + 96 with repeat counts 2^24-1 .. u32::MAX; three comparison regimes (exact / exact-phase / jitter window); every evaluation is also compared with the reported duration (terminal strictly before it or not terminal strictly after it is a violation); keyframe-less timelines report the same metadata.",
+ "C04": "As built: pool of 19 timeline shapes (merged, delayed, keyframe-less, infinite, ...), optional third animated state, de-duplicating BFS keyed on the complete mutable state, and a non-dyadic companion (advances on and 1 ulp around the reported total, all histories to depth 5/6).",
+ "C05": "As built: the same 19-shape pool incl. a negative-delay shape; an exact, model-free self-consistency clause (values bit-identical to the state's timeline probed at the animator's own clock), also run on the non-dyadic pool.",
+ "C06": "As built: a very long frame (32768 s) in the alphabet; companions for non-representable steps (0.1 .. 0.7, within float rounding) and for nanosecond-scale steps (1 ns .. 1 us x 512..4096 against one advance of the sum).",
+ "C07": "As built: 19-shape pool incl. keyframe-less timelines and merged components with different repeat counts; non-dyadic companion against the reported duration.",
+ "C08": "As built: also a second struct with attribute noise (P2) and a remote proxy with markers on some fields only (R3Proxy), both driven through keyframe_from and setters.",
+ "C09": "As built: plain and merged timeline objects through one generic DFS; the before-start time of undelayed objects is negative zero; one probe time lies exactly on a keyframe position.",
+ "C10": "As built: 4 start values (far away, Default, equal to the 0% value, large odd numbers f32 still holds exactly), every other case substitutes twice.",
+ "C11": "As built: thorough covers all 9! orders of all 9 positions; a grid with positions outside [0,1]; WIDE timelines (up to 65 537 keyframes) inserted in six structured orders.",
+ "C12": "As built: 600 stub components (negative delays and totals, near-equal cycles, Times(u32::MAX)), nested merged timelines, wide lists of up to 1025 components.",
+ "C15": "As built: literal alphabet includes 16_777_217x, 4294967295x and zero-length cycles (metadata only).",
+ "C16": "As built: arm pool includes keyframe-less timelines and members of one bracketed list with identical timing that share a property.",
+ "C17": "As built: attribute noise (doc comments, #[allow], #[cfg]) around markers, module-qualified remote paths, 48 wide structs (8..33 fields), and in every compiled shape a stepped animation of 80 keyframes and setter-override checks.",
+ "C18": "As built: 16 timeline configurations (12 plain, 4 MergedTimelines), a non-dyadic pass, and a presence pass in which the target component is detached / attached between frames.",
+ "C19": "As built: both system orders (probed per process), initial_key / reset_after, a disabled pass (animator disabled for a window of frames) and a mirror pass (the other animator on the entity changes state in every frame; C governed / Q foreign and Q governed / C foreign).",
+ "C20": "As built: 13 keyframe sets incl. extreme finite values, 257/513/300 keyframes and keyframes a subnormal distance apart; cycles up to f32::MAX; the empty merged timeline.",
 }
 
 def main():
@@ -87,7 +110,7 @@ def main():
             "evidence_file": f"/verif/evidence/{i}.json",
             "replay_cmd_template": f"./check {i} --replay {{path}}",
             "engine": eng,
-            "level_claimed": {"category": "model_checking", "text": text, "design_ref": ref},
+            "level_claimed": {"category": "model_checking", "text": text + (" " + ADDENDA[i] if i in ADDENDA else ""), "design_ref": ref},
             "level_note": note,
             "technique": tech,
         })
